@@ -54,6 +54,7 @@ def reset(now: int = 0) -> None:
     HOLD["unzstd_ok"] = False
     HOLD["unzstd_raw"] = b""
     HOLD["rand"] = 0
+    HOLD["uuid"] = 0
     HOLD["auth"] = None
     HOLD["init_method"] = ""
     HOLD["responses"] = []
@@ -276,15 +277,18 @@ TOKEN_STUBS = [
 
 
 def http_error_info(exc: BaseException) -> tuple[int, str] | None:
-    """(status, message) of a ``_RpcHttpError`` whose cause is a RuntimeError, else None."""
+    """(status, message) of a ``_RpcHttpError`` (the HTTP layer's status-carrying error), else None.
+
+    The class of the wrapped cause is not part of any property and is not looked at; the message is the
+    cause's single argument when it has exactly one, else its ``str()``."""
     from vgi_rpc.http._common import _RpcHttpError
 
     if not isinstance(exc, _RpcHttpError):
         return None
     cause = exc.cause
-    if type(cause) is not RuntimeError or len(cause.args) != 1:
-        return None
-    return int(exc.status_code), cause.args[0]
+    args = getattr(cause, "args", None)
+    msg = args[0] if isinstance(args, tuple) and len(args) == 1 else str(cause)
+    return int(exc.status_code), msg
 
 
 # ---------------------------------------------------------------------------
@@ -777,6 +781,15 @@ deserialize_state_bytes = reglobalize(st._deserialize_state_bytes, deserialize_c
 mint_cursor_token = reglobalize(st._mint_cursor_token, _seal_cursor_token=seal_cursor_token, _serialize_state_bytes=serialize_state_bytes, time=TIME)
 mint_call_token = reglobalize(st._mint_call_token, os=OSRAND, _seal_call_token=seal_call_token, time=TIME)
 
+def if_referenced(fn: Any, **maybe: Any) -> dict:
+    """The stubs among ``maybe`` whose names ``fn`` references today (reglobalize refuses unused names): lets a harness
+    keep the environment stubbed when the repository moves a call (e.g. opens the call token in the caller too)."""
+    from engine.reglob import _nested_names
+
+    names = set(fn.__code__.co_names) | _nested_names(fn.__code__)
+    return {k: v for k, v in maybe.items() if k in names}
+
+
 resolve_call_from_token = reglobalize(aps._resolve_call_from_token, _open_call_token=open_call_token, secrets=SECRETS, pa=PA)
 unpack_and_recover_state = reglobalize(
     aps._unpack_and_recover_state,
@@ -784,6 +797,7 @@ unpack_and_recover_state = reglobalize(
     time=TIME,
     _resolve_call_from_token=resolve_call_from_token,
     _deserialize_state_bytes=deserialize_state_bytes,
+    **if_referenced(aps._unpack_and_recover_state, _open_call_token=open_call_token, secrets=SECRETS, pa=PA),
 )
 
 
@@ -837,8 +851,9 @@ class _Uuid(_Strict):
             self.hex = "sid%d" % n
 
     def uuid4(self) -> Any:
-        HOLD["rand"] += 1
-        return self._U(HOLD["rand"])
+        # own counter: the n-th stream id is "sid<n>" whatever the order of uuid4 / os.urandom calls in the code
+        HOLD["uuid"] = HOLD.get("uuid", 0) + 1
+        return self._U(HOLD["uuid"])
 
 
 def _turn_stub(app: Any, **kw: Any) -> Any:
